@@ -170,7 +170,8 @@ def touch_generators(rp):
 
     from nrel.hive.runner import runner_payload_ops
 
-    for name in list(rp.u.step_update.instruction_generator_order):
+    # the FIRST generator only (putting every generator back in turn could undo a re-ordering it causes)
+    for name in list(rp.u.step_update.instruction_generator_order)[:1]:
         ig = runner_payload_ops.get_instruction_generator_safe(rp, name)
         if isinstance(ig, Failure):
             continue
